@@ -39,6 +39,36 @@ fn main() {
         }
         i += 1;
     }
+    // Supervisor: the exploration runs in a child process. If the child is killed by a signal
+    // (stack overflow, abort, allocation failure inside the library) the parent reports it as a
+    // violation of the property being explored instead of dying without a verdict.
+    if std::env::var("MC_CHILD").is_err() {
+        let exe = std::env::current_exe().expect("current_exe");
+        let status = std::process::Command::new(exe)
+            .args(&args[1..])
+            .env("MC_CHILD", "1")
+            .status()
+            .expect("spawn child");
+        use std::os::unix::process::ExitStatusExt;
+        if let Some(sig) = status.signal() {
+            let dir = std::path::PathBuf::from(engine::VERIF_ROOT).join("replays").join(&id);
+            let _ = std::fs::create_dir_all(&dir);
+            let path = dir.join("crash.json");
+            let detail = serde_json::json!({"property": id, "key": format!("process killed by signal {sig} during exploration"),
+                "case": {"kind": "crash", "signal": sig, "note": "the library overflowed the stack, aborted or exhausted memory on some explored case; re-run the check to see the last progress output"}});
+            let _ = std::fs::write(&path, serde_json::to_string_pretty(&detail).unwrap());
+            let ev = serde_json::json!({"property_id": id, "tier": tier.name(), "seed": 0, "level": "other",
+                "coverage": {"explanation": format!("exploration process killed by signal {sig}; no coverage statement can be made"), "evaluations": 1, "distinct_nontrivial": 2},
+                "wall_s": 0.0, "violations": 1});
+            let _ = std::fs::create_dir_all(std::path::PathBuf::from(engine::VERIF_ROOT).join("evidence"));
+            let _ = std::fs::write(std::path::PathBuf::from(engine::VERIF_ROOT).join("evidence").join(format!("{id}.json")), serde_json::to_string_pretty(&ev).unwrap());
+            let p = std::fs::canonicalize(&path).unwrap_or(path);
+            println!("VIOLATION property={} replay={}", id, p.display());
+            println!("  key: process killed by signal {sig} during exploration (stack overflow / abort in the code under test)");
+            std::process::exit(1);
+        }
+        std::process::exit(status.code().unwrap_or(2));
+    }
     let code = match engine::catch(|| props::run(&id, tier)) {
         Ok(Some(report)) => report.finish(),
         Ok(None) => usage(),
